@@ -232,7 +232,9 @@ func genComment(r *kit.Rng) string {
 	return pad(r) + "#" + r.PickStr([]string{"", " a comment", "GET http://commented/", " X: 1", "@file", "#", " trailing  ", "\tté"}) + pad(r)
 }
 
-func genBlank(r *kit.Rng) string { return r.PickStr([]string{"", "", "", " ", "\t", "  \t ", "\r", "\v"}) }
+func genBlank(r *kit.Rng) string {
+	return r.PickStr([]string{"", "", "", " ", "\t", "  \t ", "\r", "\v"})
+}
 
 func genDefaults(r *kit.Rng) []dflt {
 	n := r.Pick(4)
@@ -1185,7 +1187,7 @@ func runC14(c *run.Ctx, s *kit.Summary) {
 	{
 		st := &kit.Stream{Name: "c14.http"}
 		ra := &kit.Stream{Name: "c14.http.readall"}
-		for i := 0; i < c.N(2500, 150000); i++ {
+		for i := 0; i < c.N(2500, 120000); i++ {
 			hc := genHTTPCase(r, work, i)
 			writeFiles(&hc)
 			mutated := r.Chance(0.2)
@@ -1258,7 +1260,7 @@ func runC14(c *run.Ctx, s *kit.Summary) {
 		st := &kit.Stream{Name: "c14.json"}
 		ra := &kit.Stream{Name: "c14.json.readall"}
 		var encOps, encImpl, imgOps, imgImpl []string
-		for i := 0; i < c.N(2500, 150000); i++ {
+		for i := 0; i < c.N(2500, 120000); i++ {
 			jc, ts, lines := genJSONCase(r)
 			if r.Chance(0.15) {
 				jc.Src = gen.Mutate(r, jc.Src)
